@@ -71,14 +71,14 @@ class C09(InterpProp):
     def generate(self, d, index, tier):
         kind = d.weighted([("random", 7), ("library", 1), ("exhaustive", 2 if tier == "quick" else 1)], "batch")
         if kind == "random":
-            sc = gen_interp_scenario(d)
+            sc = gen_interp_scenario(d, finishing_main=True)
         elif kind == "library":
             n = d.randint(2, 8, "n")
             dels = [{"type": "UtteranceUserActionFinished", "final_transcript": d.choice(USER_TEXTS, "ut", i), "action_uid": "user-%d" % i, "is_success": True} for i in range(n)]
             sc = {"program_text": "LIBRARY", "deliveries": dels, "client": {"seed": d.randint(0, 1 << 30, "cs"), "faults": [f for f in ("late", "dup", "never") if d.chance(0.3, "lf", f)]},
                   "tie_seed": d.randint(0, 1 << 30, "ts"), "gap_seed": d.randint(0, 1 << 30, "gs")}
         else:
-            sc = gen_interp_scenario(d, with_faults=False, n_flows=d.randint(2, 3, "nf"), allow_actions=False, max_body=3)
+            sc = gen_interp_scenario(d, with_faults=False, n_flows=d.randint(2, 3, "nf"), allow_actions=False, max_body=3, finishing_main=True)
             sc["deliveries"] = []
             sc["exhaustive_len"] = 4 if tier == "quick" else 5
             sc["gaps"] = False
